@@ -224,6 +224,102 @@ Qed.
 Lemma median_even_of_copies : forall x : F, 1 + 1 <> 0 -> (x + x) / (1 + 1) = x.
 Proof. intros x H2. field. exact H2. Qed.
 
+(* ---------------- RotMatToVec: the half-turn case (justification of the repair of
+   C20-rotmattovec-symmetric-half-turn) ---------------- *)
+
+(* if the skew part of a rotation matrix vanishes, sin(angle) = 0: the matrix is the identity or a
+   half turn, whatever the rounded trace says *)
+Lemma rotvec_skew_zero : forall (n : vec3 F) (c s : F),
+  unit_vec K n -> 1 + 1 <> 0 -> rot_axis_raw K (rodrigues K n c s) = v3_zero K -> s = 0.
+Proof.
+  intros [x y z] c s Hn H2 H. rewrite rotvec_axis in H.
+  unfold unit_vec, v3_dot in Hn. unf. injection H as Hx Hy Hz.
+  assert (E : (1 + 1) * s = ((1 + 1) * s * x) * x + ((1 + 1) * s * y) * y + ((1 + 1) * s * z) * z)
+    by (transitivity ((1 + 1) * s * (x * x + y * y + z * z)); [rewrite Hn|]; ring).
+  rewrite Hx, Hy, Hz in E.
+  assert (E0 : (1 + 1) * s = 0) by (rewrite E; ring).
+  transitivity ((1 + 1) * s / (1 + 1)); [field; exact H2 | rewrite E0; field; exact H2].
+Qed.
+
+(* and in that case (indeed for any c) the diagonal minus cosang is proportional to the squared axis
+   components, with factor (1 - c)/2 (= 1 at a half turn): this is what the sqrt-based case reads *)
+Lemma rotvec_half_turn_sq : forall (n : vec3 F) (c s : F),
+  unit_vec K n -> 1 + 1 <> 0 ->
+  half_turn_sq K (rodrigues K n c s) =
+  v3_scale K (V3 (vx n * vx n) (vy n * vy n) (vz n * vz n)) ((1 - c) / (1 + 1)).
+Proof.
+  intros n c s Hn H2. unfold half_turn_sq. rewrite rotvec_trace by assumption.
+  destruct n as [x y z]. unf. f_equal; field; exact H2.
+Qed.
+
+(* ---------------- CalcAverageRotation / CalcMedianRotation on copies ---------------- *)
+
+Lemma m3_mul_assoc : forall a b c : mat3 F, m3_mul K (m3_mul K a b) c = m3_mul K a (m3_mul K b c).
+Proof. intros [? ? ? ? ? ? ? ? ?] [? ? ? ? ? ? ? ? ?] [? ? ? ? ? ? ? ? ?]. unf. f_equal; ring. Qed.
+
+Lemma m3_mul_id_l : forall a : mat3 F, m3_mul K (m3_id K) a = a.
+Proof. intros [? ? ? ? ? ? ? ? ?]. unf. f_equal; ring. Qed.
+
+Lemma avg_vec_repeat : forall (v : vec3 F) (n : nat), fnat K n <> 0 ->
+  v3_divn K (sum_vec K (repeat v n)) (fnat K n) = v.
+Proof.
+  intros v n Hn. unfold sum_vec. rewrite sum_vec_repeat. destruct v as [x y z].
+  unfold v3_divn. unf. f_equal; field; exact Hn.
+Qed.
+
+(* The REPAIRED two-pass average of n >= 1 copies of r returns r, whatever base B the first pass
+   produced, as long as B is orthonormal and the rotation-vector round trip is exact on the rebased
+   matrix B^T r (in exact arithmetic both hold for RotVecToMat / RotMatToVec below a half turn; they
+   are hypotheses here because those functions are not modelled). *)
+Lemma avg_rotation_of_copies : forall (m2v : mat3 F -> vec3 F) (v2m : vec3 F -> mat3 F) (r : mat3 F) (n : nat),
+  n <> 0%nat -> fnat K n <> 0 ->
+  let B := v2m (m2v r) in
+  m3_mul K B (m3_transpose B) = m3_id K ->
+  v2m (m2v (m3_mul K (m3_transpose B) r)) = m3_mul K (m3_transpose B) r ->
+  avg_rotation K m2v v2m (repeat r n) = r.
+Proof.
+  intros m2v v2m r n Hn0 Hn B Horth Hrt.
+  destruct n as [|k]; [contradiction|].
+  unfold avg_rotation. change (r :: repeat r k) with (repeat r (S k)).
+  cbn [repeat]. change (r :: repeat r k) with (repeat r (S k)).
+  rewrite repeat_length, !map_repeat', !avg_vec_repeat by exact Hn.
+  fold B. rewrite Hrt, <- m3_mul_assoc, Horth. apply m3_mul_id_l.
+Qed.
+
+(* the code before the repair applied n times the offset instead *)
+Lemma avg_rotation_unrepaired_of_copies : forall (m2v : mat3 F -> vec3 F) (v2m : vec3 F -> mat3 F) (r : mat3 F) (n : nat),
+  n <> 0%nat -> fnat K n <> 0 ->
+  let B := v2m (m2v r) in
+  avg_rotation_unrepaired K m2v v2m (repeat r n) =
+  m3_mul K B (v2m (v3_lscale K (fnat K n) (m2v (m3_mul K (m3_transpose B) r)))).
+Proof.
+  intros m2v v2m r n Hn0 Hn B.
+  destruct n as [|k]; [contradiction|].
+  unfold avg_rotation_unrepaired. cbn [repeat]. change (r :: repeat r k) with (repeat r (S k)).
+  rewrite repeat_length, !map_repeat', avg_vec_repeat by exact Hn.
+  fold B. unfold sum_vec. rewrite sum_vec_repeat. f_equal. f_equal.
+  destruct (m2v (m3_mul K (m3_transpose B) r)) as [x y z]. unf. f_equal; ring.
+Qed.
+
+(* the median scheme on copies, given that the scalar median of n copies of x is x
+   (C20_median_of_copies / C20_median_even_of_copies) *)
+Lemma median_rotation_of_copies : forall (m2v : mat3 F -> vec3 F) (v2m : vec3 F -> mat3 F) (med : list F -> F)
+  (r : mat3 F) (n : nat),
+  n <> 0%nat -> fnat K n <> 0 -> (forall x, med (repeat x n) = x) ->
+  let B := v2m (m2v r) in
+  m3_mul K B (m3_transpose B) = m3_id K ->
+  v2m (m2v (m3_mul K (m3_transpose B) r)) = m3_mul K (m3_transpose B) r ->
+  median_rotation K m2v v2m med (repeat r n) = r.
+Proof.
+  intros m2v v2m med r n Hn0 Hn Hmed B Horth Hrt.
+  destruct n as [|k]; [contradiction|].
+  unfold median_rotation. cbn [repeat]. change (r :: repeat r k) with (repeat r (S k)).
+  rewrite repeat_length, !map_repeat', avg_vec_repeat by exact Hn.
+  fold B. unfold med_vec. rewrite !map_repeat', !Hmed.
+  destruct (m2v (m3_mul K (m3_transpose B) r)) as [x y z] eqn:E. cbn [vx vy vz].
+  rewrite Hrt, <- m3_mul_assoc, Horth. apply m3_mul_id_l.
+Qed.
+
 (* ---------------- Matrix4::Det / Adjoint / Inverse ---------------- *)
 
 Lemma inverse4_none_iff : forall m : mat4 F, m4_inverse K m = None <-> m4_det K m = 0.
